@@ -67,6 +67,17 @@ def judge_sets(ctx, a, b, res, rp, variant):
             check(ctx, "jaccard_index" + desc, lambda: prs.jaccard_index(A, B), res["jaccard"], f"jaccard_index/{cont}", rp)
 
 
+def _replay_item(ctx, i, item):
+    kind, k, doc = item
+    if kind == "fof":
+        ctx.case(dict(kind="fof", counts=doc["n"], spec=doc["res"]), nontrivial=len(doc["n"]) > 1 and doc["n"][1] > 0)
+        judge_fof(ctx, doc["n"], doc["res"], dict(kind="replay", doc=doc))
+    else:
+        ctx.case(dict(kind="sets", a=doc["n"], b=doc["m"], spec=doc["res"]), nontrivial=doc["res"]["overlap"][0] > 0)
+        judge_sets(ctx, doc["n"], doc["m"], doc["res"], dict(kind="replay", doc=doc), k)
+    ctx.traces += 1
+
+
 def run(ctx):
     ctx.rule = ("Estimators.tla: chao1, chao2, the classical Chao variance and the three set-overlap measures as exact rationals (NaN as a value), "
                 "model-checked for all frequency-of-frequency vectors and all pairs of small collections with missing values (ChaoNotBelowObserved, "
@@ -75,21 +86,15 @@ def run(ctx):
     ctx.assumptions = ["jaccard_index is judged with missing values inside Series only and for non-empty unions (its documented behaviour)"]
     q = ctx.quick
     res = estim.run_cfg(ctx, "fof", estim.cfg_text(["fof"], maxlen=3 if q else 4, maxcount=4 if q else 5, invs=INVS))
-    for doc in res.printed:
-        if "kind" in doc:
-            ctx.case(dict(kind="fof", counts=doc["n"], spec=doc["res"]), nontrivial=len(doc["n"]) > 1 and doc["n"][1] > 0)
-            judge_fof(ctx, doc["n"], doc["res"], dict(kind="replay", doc=doc))
-            ctx.traces += 1
+    ctx.parallel([("fof", 0, doc) for doc in res.printed if "kind" in doc], _replay_item, chunk=500)
     res = estim.run_cfg(ctx, "sets", estim.cfg_text(["sets"], setvals=(1, 2, 3) if q else (1, 2, 3, 4), maxsetlen=3 if q else 4, invs=INVS))
-    k = 0
-    for doc in res.printed:
-        if "kind" in doc:
-            k += 1
-            if q and k % 3:
-                continue
-            ctx.case(dict(kind="sets", a=doc["n"], b=doc["m"], spec=doc["res"]), nontrivial=doc["res"]["overlap"][0] > 0)
-            judge_sets(ctx, doc["n"], doc["m"], doc["res"], dict(kind="replay", doc=doc), k)
-            ctx.traces += 1
+    items = []
+    for k, doc in enumerate(ctx.sample([d for d in res.printed if "kind" in d], 200000), 1):
+        if q and k % 2:
+            continue
+        items.append(("sets", k, doc))
+    res.printed = []
+    ctx.parallel(items, _replay_item, chunk=1000)
     ctx.exhaustive = True
     # negative controls: the as-found variance formula is rejected by TLC; a perturbed code value is rejected by the comparator
     estim.run_cfg(ctx, "NEG_varchao", estim.cfg_text(["fof"], maxlen=2, maxcount=3, mutations=["varchao_asfound"], invs=("VarChaoExpanded",), emit=False),
